@@ -1,6 +1,7 @@
 import GoRedisModel.Generated.Translated
 import GoRedisModel.Model.ExStore
 import GoRedisModel.Model.Exec
+import GoRedisModel.Model.ParserImpl
 /-! The definitions that `bin/extract` translates from /repo's Go source on every run (`Generated/Translated.lean`)
 compute what the hand-written model says, on every input: the hand-written definitions of these functions are the
 code.  Integers are Go's 64-bit `int`: the hypotheses say that the arguments are `int` values and that a length is a
@@ -135,5 +136,24 @@ theorem decrby_eq (inc : Int) (h : inInt64 inc = true) :
   simp only
   repeat' split
   all_goals (first | omega | rfl | (congr 1 <;> omega))
+
+/-! ## redis/proto/parser.go: the declared length of a bulk string; redis/core_commander.go: the ZREVRANGE window -/
+
+/-- the limit test precedes the addition, the addition does not wrap, and the number of bytes to read is the model's
+`need = n + 2` -/
+theorem bulkReadLength_eq (num : Int) (h : inInt64 num = true) (h0 : 0 ≤ num) :
+    bulkReadLength num = if num.toNat > maxBulk then .err "errorTooLongBulkString" else .ok ((num.toNat + 2 : Nat) : Int) := by
+  simp only [inInt64, decide_eq_true_eq] at h
+  unfold bulkReadLength maxBulk
+  by_cases hc : (536870912 : Int) < num
+  · have : num.toNat > 536870912 := by omega
+    simp [hc, this]
+  · have : ¬ num.toNat > 536870912 := by omega
+    have e : wadd num 2 = num + 2 := wadd_id (by omega)
+    simp only [hc, this, if_false, e]
+    congr 1
+    omega
+
+theorem zrevrangeWindow_eq (start stop : Int) : zrevrangeWindow start stop = (-stop - 1, -start - 1) := rfl
 
 end GoRedis.Translated
